@@ -141,6 +141,9 @@ def resize(input, oshape, ishift=None, oshift=None):
     if oshift is None:
         oshift = [max(o // 2 - i // 2, 0) for i, o in zip(ishape1, oshape1)]
 
+    # Shifts may come as narrow NumPy integers: compute with Python ints.
+    ishift = [int(si) for si in ishift]
+    oshift = [int(so) for so in oshift]
     copy_shape = [
         min(i - si, o - so)
         for i, si, o, so in zip(ishape1, ishift, oshape1, oshift)
